@@ -27,6 +27,10 @@ R07.5 GHASH schedule of the streaming bodies (lib/ghash.py): for every update bo
       precomp body stores.  Over-approximating sets, presence-only demand: cannot alarm on a correct schedule.
 R07.6 GHASH schedule of finalize: the tag written through auth_tag contains the carried hash times H^(1 + [a partial
       block is pending]) and the length block times H.
+R07.7 the context is owned by the CPU-specific bodies: no branch of a public isal_aes_gcm_* wrapper depends on a value
+      loaded through its context_data argument - the families keep different invariants there (VAES leaves
+      partial_block_length = 16 after an update that ends on a block boundary), so a wrapper-level condition on a
+      context field makes streaming and one-shot disagree on some family.
 The update bodies' alignment, in-place and tag-extent clauses are decided under C02 (R02.1, R02.5, R02.2), the
 zero-length update under C08 R08.7.
 """
@@ -341,6 +345,58 @@ def run(chk):
         for s in r["samples"]:
             if len(chk.samples) < 6:
                 chk.samples.append(dict(rule="R07.1-3", **s))
+    # ---- R07.7
+    n77 = 0
+    Mw = mods.get("aes/aes_gcm.c")
+    if Mw is None:
+        chk.broke("aes/aes_gcm.c not in the build")
+    else:
+        for Fw in Mw.defined():
+            if not re.match(r"^isal_aes_gcm_", Fw.name):
+                continue
+            cn = Fw.arg_index("context_data")
+            if cn is None:
+                continue
+            n77 += 1
+
+            def from_ctx(v, depth=0):
+                I = Fw.resolve(v)
+                if not isinstance(I, ir.Inst) or depth > 12:
+                    return None
+                if I.op == "load":
+                    root, off = Fw.ptr_root(I.ops[0])
+                    if Fw.is_arg(root, cn):
+                        return I
+                    return None
+                if I.op in ("call", "alloca", "phi"):
+                    if I.op == "phi":
+                        for inc in I.incoming:
+                            r_ = from_ctx(inc["v"], depth + 1)
+                            if r_ is not None:
+                                return r_
+                    return None
+                for o_ in I.ops:
+                    r_ = from_ctx(o_, depth + 1)
+                    if r_ is not None:
+                        return r_
+                return None
+            bad77 = None
+            for B in Fw.blocks:
+                T = B.insts[-1]
+                if T.op == "br" and T.raw.get("cond"):
+                    ld = from_ctx(T.ops[0])
+                    if ld is not None:
+                        bad77 = bad77 or (T, ld)
+                elif T.op == "switch":
+                    ld = from_ctx(T.ops[0])
+                    if ld is not None:
+                        bad77 = bad77 or (T, ld)
+            chk.obligation("R07.7", bad77 is None, key=("wrapper", Fw.name), sample={"function": Fw.name})
+            if bad77:
+                fld = Fw.field(bad77[1].ops[0])
+                fname = fld[1][-1][1] if fld and fld[1] else "a context field"
+                chk.finding(Finding("R07.7", "aes/aes_gcm.c", Fw.name, "wrapper-reads-context:" + str(fname), "a branch of this public wrapper depends on context_data->%s; the CPU-specific bodies own the context and keep family-specific invariants there, so the wrapper's verdict differs between families and between streaming and one-shot" % fname, loc=bad77[0].loc()))
+    chk.floor("public GCM wrappers with a context argument", n77, 16)
     # ---- R07.4
     def group_of(iface):
         m = re.match(r"^_aes_gcm_(precomp|enc|dec)_(128|256)(_update)?(_nt)?$", iface)
